@@ -12,6 +12,7 @@ ASSUME /\ PrintT(<<"family", Family>>)
        /\ CASE Family = "G1" -> Emit(IOEnv.GEN_OUT, G1) /\ PrintT(<<"count", Cardinality(G1)>>)
             [] Family = "G2" -> Emit(IOEnv.GEN_OUT, G2ok) /\ PrintT(<<"count", Cardinality(G2ok)>>)
             [] Family = "W"  -> Emit(IOEnv.GEN_OUT, W) /\ PrintT(<<"count", Cardinality(W)>>)
+            [] Family = "L2"   -> Emit(IOEnv.GEN_OUT, L2)
             [] Family = "DAG4" -> Emit(IOEnv.GEN_OUT, DAG4)
             [] Family = "DAG5" -> Emit(IOEnv.GEN_OUT, DAG5)
             [] Family = "DAG6" -> Emit(IOEnv.GEN_OUT, DAG6)
